@@ -67,6 +67,11 @@ def install() -> None:
 
     time.time = sim_time        # type: ignore[assignment]
     time.sleep = sim_sleep      # type: ignore[assignment]
+    # real child processes (the openssl binary run by proxy/common/pki.py) are waited for in real time: subprocess's
+    # wait loop must not advance the virtual clock while the child runs
+    import subprocess
+    import types
+    subprocess.time = types.SimpleNamespace(sleep=_real_sleep, monotonic=time.monotonic, time=_real_time)   # type: ignore[attr-defined]
 
     # threads / processes ----------------------------------------------------
     threading.Thread = kernel.SimThread     # type: ignore[misc,assignment]
